@@ -66,7 +66,7 @@ EXPECTED_EXTRACTOR_ROWS = [
 ]
 
 PROP = {
-    "lean_modules": ["GunYu.Props.C10"],
+    "lean_modules": ["GunYu.Props.C10", "GunYu.Props.C10Gen"],
     "audit_namespaces": ["GunYu.Props.C10"],
     "required_theorems": [
         "GunYu.Props.C10.rangeLookup_iff",
@@ -87,6 +87,12 @@ PROP = {
         "GunYu.Props.C10.bookkeeping_never_forwarded",
         "GunYu.Props.C10.cmd_blacklist_iff",
         "GunYu.Props.C10.db_iff",
+        # pkg/filter/range.go TRANSLATED from the Go source each run (Gen/FnRangeList.lean) equals the hand model; the range theorem about the translation
+        "GunYu.Props.C10.gen_newRangeList_eq_model",
+        "GunYu.Props.C10.gen_isSlotInList_eq_model",
+        "GunYu.Props.C10.gen_insertSlotInList_eq_model",
+        "GunYu.Props.C10.gen_insertAll_eq_model",
+        "GunYu.Props.C10.gen_rangeLookup_iff",
     ],
     "expected_facts": {
         "output_filter_wiring": EXPECTED_WIRING,
@@ -110,6 +116,7 @@ PROP = {
         {"name": "C10cfg", "pkg": "./config/", "test": "TestVerifC10"},
     ],
     "driver": "drv_C10",
+    "gens": ["gofn_rangelist", "gofn_keytoslot", "gofn_crc16", "crc16"],
     "rule": "generated (configuration, input) pairs, corpus first. Configurations: 0-6 slot-range entries per list drawn to nest / enclose / overlap "
             "left and right / touch / share a left bound / be single-slot / reversed / malformed / exceed 16383, dense (64-slot) and sparse universes; "
             "0-4 prefixes per list with shared prefixes, invalid UTF-8, U+FFFD, the empty string; command black/white lists in random ASCII case; db lists. "
@@ -133,7 +140,12 @@ PROP = {
             "(config, command) whose outcome is reject/projection, non-empty parser outputs, snapshot entries, preserved db lists",
     "trusted": [
         "Redis Cluster HASH_SLOT as transcribed in Model/Slot.lean (proved equal to the model of redis.KeyToSlot in C11)",
-        "sort.Search on a list sorted by Left finds the first greater Left (insertSorted is its linear transcription); Go map[byte] as a function UInt8 -> Option",
+        "sort.Search on a list sorted by Left finds the first greater Left (insertSorted is its linear transcription; for the TRANSLATED InsertSlotInList this is now PROVED: "
+        "GoSem.sortSearch is the standard library's binary search transcribed and Props/C10Gen shows it returns the model's position on every list sorted by Left); Go map[byte] as a function UInt8 -> Option",
+        "the Go->Lean translator (harness/extract/gofn*.go) and its prelude Basic/GoSem.lean: RangeList.IsSlotInList / InsertSlotInList are translated from range.go on every run "
+        "(Gen/FnRangeList.lean; []*Range as a list of optional structs, the receiver as the struct, the statements `append; copy; s[i] = v` read as one insert-at-index, "
+        "sort.Search as the transcribed binary search) and proved equal to RangeList.contains / RangeList.insert for every key, every list without nil entries sorted by Left and every pair of bounds; "
+        "NewRangeList is translated too (gen_rangeLookup_iff starts from the list it returns); the translation ASSUMES a 64-bit `int` (amd64/arm64); the CRC table the slot proofs use is the one the `crc16` generator regenerates",
     ],
     "assumptions": [
         "command names and option words are ASCII (Go folds case with Unicode rules: Kelvin sign, long s; the model folds ASCII only); configured command names are ASCII",
